@@ -40,6 +40,8 @@ class C08(Prop):
         "Go slices compare by contents (nil = empty); a message is its list of embedded IE structs (Iei, Len, Octet|Buffer)",
     ]
     assumptions = ["MsgWF: Iei fields carry the decode case's constant (0 for mandatory fields), Len = len(Buffer), Len <= capacity and zero tail for Octet[N] IEs"]
+    partial_note = ("none: all four clauses are proved at full strength for every LayoutWF layout; the canonical language of a layout is "
+                    "defined as the set of encodings of its MsgWF messages (mandatory part, each present optional IE once in table order)")
     level_text = ("Generic Lean theorems (every LayoutWF layout, every MsgWF message): decode(encode m) = m, encode(decode b) = b on the "
                   "canonical language, any permutation of the optional IEs decodes to the same message, PlainNasDecode(PlainNasEncode M) = M, "
                   "unknown message type / EPD -> error; LayoutWF for the 45 layouts regenerated from the source by decide.")
